@@ -203,6 +203,34 @@ def text_oracles(ctx, text, kinds, headers, rows, opts, nullvalue, dcontext=None
                             offs.add(m.end())
                     if len(offs) > 1:
                         problems.append('amounts of column %d have their decimal points at offsets %r' % (j, sorted(offs)))
+            # one-line inventories in tabular form (at most five slots): the n-th lot of a commodity has a slot of its own, at
+            # the same offset in every row, and the amounts in it are aligned on the decimal point
+            if not opts['expand']:
+                import collections as _collections
+                for j, kind in enumerate(kinds):
+                    if kind != 'inventory':
+                        continue
+                    counts = _collections.Counter()
+                    for row in rows:
+                        if row[j] is not None:
+                            for cur, n in _collections.Counter(p.units.currency for p in row[j]).items():
+                                counts[cur] = max(counts[cur], n)
+                    if sum(counts.values()) > 5:
+                        continue
+                    offs = {}
+                    for l, row in zip(body, rows):
+                        if row[j] is None:
+                            continue
+                        cell = l[starts[j]:starts[j] + len(segs[j])]
+                        masked = _re.sub(r'\{[^}]*\}', lambda m: '#' * len(m.group()), cell)
+                        seen = _collections.Counter()
+                        for m in _re.finditer(r'(-?[0-9][0-9,]*)(\.[0-9]+)? +([A-Z]+)', masked):
+                            cur = m.group(3)
+                            offs.setdefault((cur, seen[cur]), set()).add(m.end(1))
+                            seen[cur] += 1
+                    bad = {k: sorted(o) for k, o in offs.items() if len(o) > 1}
+                    if bad:
+                        problems.append('inventory column %d: lots of one commodity at different offsets %r' % (j, bad))
             # header centred
             for j, h in enumerate(headers):
                 cell = lines[0][starts[j]:starts[j] + len(segs[j])]
